@@ -137,7 +137,7 @@ func (m *Mutex) Lock() {
 	lockLoop(m, "waiting for Mutex", m.mu.TryLock)
 }
 
-func (m *Mutex) Unlock()       { m.mu.Unlock(); signal(m) }
+func (m *Mutex) Unlock()       { m.mu.Unlock(); signal(m); AfterUnlock() }
 func (m *Mutex) TryLock() bool { return m.mu.TryLock() }
 
 type RWMutex struct {
@@ -164,7 +164,7 @@ func (m *RWMutex) Lock() {
 	}
 	lockLoop(m, "waiting for RWMutex (write)", m.mu.TryLock)
 }
-func (m *RWMutex) Unlock() { m.mu.Unlock(); signal(m) }
+func (m *RWMutex) Unlock() { m.mu.Unlock(); signal(m); AfterUnlock() }
 func (m *RWMutex) RLock() {
 	_, t := opPoint("locking")
 	if t == nil {
@@ -173,7 +173,7 @@ func (m *RWMutex) RLock() {
 	}
 	lockLoop(m, "waiting for RWMutex (read)", m.mu.TryRLock)
 }
-func (m *RWMutex) RUnlock()       { m.mu.RUnlock(); signal(m) }
+func (m *RWMutex) RUnlock()       { m.mu.RUnlock(); signal(m); AfterUnlock() }
 func (m *RWMutex) TryLock() bool  { return m.mu.TryLock() }
 func (m *RWMutex) TryRLock() bool { return m.mu.TryRLock() }
 func (m *RWMutex) RLocker() sync.Locker {
